@@ -52,7 +52,7 @@ class ArbiterSpec(Spec):
         super().__init__(cfg, tier)
         self.n = n = cfg["n"]
         self.kind = cfg["kind"]
-        self.time_budget = 30 if tier == "quick" else 800
+        self.time_budget = 150 if tier == "quick" else 850       # a cap, not a target
         # per-sink alphabet: list of (valid, word) where word is hashable and comparable with the source observation
         if self.kind == "header":
             per = [(v, h) for v in (0, 1) for h in range(len(HDR_VALUES))]
